@@ -181,18 +181,20 @@ def target(h0: int, h1: int, h2: int, port: int, p0: int, p1: int) -> bool:
 DAMAGED = {
     'nobracket': b'http://[::1/x', 'badport': b'http://h.example:8{}/', 'badport2': b'h.example:{}{}', 'emptyhost': b'http://:80/',
     'emptyhost2': b':443', 'scheme': b'ft{}://h.example/', 'emptyport': b'http://h.example:/', 'negport': b'http://h.example:-{}/',
-    'bigport': b'http://h.example:6553{}/', 'spacehost': b'http://h{}e/',
+    'bigport': b'http://h.example:6553{}/', 'spacehost': b'http://h{}e/', 'badutf8': b'http://ex{}ample.com/', 'badutf8c': b'ex{}ample.com:443',
 }
 
 
 def damaged(c0: int, c1: int) -> bool:
     """
-    pre: 33 <= c0 <= 126 and 33 <= c1 <= 126
+    pre: 33 <= c0 <= 255 and 33 <= c1 <= 126
     post: _
     """
     begin()
     kind = CFG['kind']
     tpl = DAMAGED[kind]
+    if kind not in ('badutf8', 'badutf8c') and c0 > 126:
+        return skip()
     if kind in ('badport', 'badport2') and (48 <= c0 <= 57 or c0 == 95 or c0 == 47 or c0 == 58 or c0 == 64 or c0 == 63):
         return skip()      # must be a non-digit that also does not end the authority
     if kind == 'badport2' and (48 <= c1 <= 57 or c1 in (95, 47, 58, 64, 63)):
@@ -205,8 +207,8 @@ def damaged(c0: int, c1: int) -> bool:
         return skip()
     if kind == 'bigport' and not (54 <= c0 <= 57):
         return skip()      # 65536..65539
-    if kind == 'spacehost' and c0 != 32 and c0 != 9:
-        pass
+    if kind in ('badutf8', 'badutf8c') and c0 < 128:
+        return skip()      # a lone byte >= 0x80 is never valid UTF-8: the host cannot be turned into a name to connect to
     parts = tpl.split(b'{}')
     tgt = parts[0]
     cs_ = [c0, c1]
@@ -227,6 +229,8 @@ def damaged(c0: int, c1: int) -> bool:
     try:
         td = run(h.handle_events([cs.fd], []))
     except Exception as e:
+        if kind in ('badutf8', 'badutf8c') and len(CALLS) == 0:
+            return ok()     # an exception leaving the handler is turned into a close by the executor (C05); nothing was connected
         return fail('exception left handle_events', exc=repr(e), target=repr(tgt))
     out = cat(h.work.buffer)
     if len(CALLS) != 0:
